@@ -201,22 +201,26 @@ def set_sampler(rnd, mod, spec, depth):
         mod.effect = api.Synth(rand_module(rnd, ecls, spec, depth - 1, in_project=False))
 
 
+FORCE_UDC = None      # drivers may pin the number of user-defined controllers of generated MetaModules
+
+
 def set_meta(rnd, mod, spec, depth):
     import rv.api as api
     from rv.controller import Range
     cl = classes()
-    emb = rand_project(rnd, spec, nmods=rnd.randrange(0, 4), depth=depth - 1, allow_meta=depth > 1, small=True)
+    emb = rand_project(rnd, spec, nmods=rnd.randrange(0 if FORCE_UDC is None else 2, 4), depth=depth - 1, allow_meta=depth > 1, small=True)
     mod.project = emb
     emb.metamodule = mod
-    n = rnd.choice([0, 1, 2, 3, 5, 27, 95, 96, rnd.randrange(97)])
+    n = rnd.choice([0, 1, 2, 3, 5, 27, 89, 95, 96, 96, rnd.randrange(97)]) if FORCE_UDC is None else FORCE_UDC
     targets = [(i, m) for i, m in enumerate(emb.modules) if m is not None and i > 0 and len(type(m).controllers) > 0
                and m.mtype not in ("MetaModule",)]
     for i in range(96):
         if i < n and targets and rnd.random() < 0.8:
             mi, tm = rnd.choice(targets)
             nspec = len(spec[tm.mtype]["ctls"])
+            ranged = [k for k, c in enumerate(spec[tm.mtype]["ctls"]) if c["kind"] == "range" and not (tm.mtype == "SpectraVoice" and c["name"].startswith("h"))]
             mod.mappings.values[i].module = mi
-            mod.mappings.values[i].controller = rnd.randrange(nspec)
+            mod.mappings.values[i].controller = rnd.choice(ranged) if (i == n - 1 and ranged) else rnd.randrange(nspec)
         elif rnd.random() < 0.05:
             mod.mappings.values[i].module = rnd.choice([0, 200])
             mod.mappings.values[i].controller = rnd.randrange(50)
@@ -248,7 +252,21 @@ def set_meta(rnd, mod, spec, depth):
                 setattr(mod, name, rnd.random() < 0.5)
         except Exception:
             pass
-    # afterwards the embedded targets may be edited directly: the stored user-controller value and the target's value differ
+    # afterwards mapped targets may be edited directly: the stored user-controller value and the target's value differ
+    # (the last exposed controller most often: it is the one at the end of every table)
+    for i in ([n - 1] + list(range(n)) if n else []):
+        mp = mod.mappings.values[i]
+        if mp.module == 0 or mp.module >= len(emb.modules) or emb.modules[mp.module] is None or rnd.random() < (0.3 if i == n - 1 else 0.8):
+            continue
+        tm = emb.modules[mp.module]
+        st = spec.get(tm.mtype)
+        if st and mp.controller < len(st["ctls"]):
+            c = st["ctls"][mp.controller]
+            if c["kind"] == "range" and not (tm.mtype == "SpectraVoice" and c["name"].startswith("h")):
+                try:
+                    tm.controller_values[c["name"]] = rnd.choice([c["min"], c["max"], rnd.randint(c["min"], c["max"])])
+                except Exception:
+                    pass
     if rnd.random() < 0.4:
         for tm in [m for m in emb.modules[1:] if m is not None][:3]:
             st = spec.get(tm.mtype)
@@ -330,7 +348,11 @@ def rand_project(rnd, spec, nmods=None, depth=1, allow_meta=True, small=False, t
             p.attach_module(None)
             continue
         key = types[k % len(types)] if types else rnd.choice(keys)
-        p.attach_module(rand_module(rnd, cl[key], spec, depth, in_project=True))
+        # (loading=True is the public way to append behind an empty position: it leaves an interior gap, as SunVox files have)
+        p.attach_module(rand_module(rnd, cl[key], spec, depth, in_project=True), loading=(None in p.modules and rnd.random() < 0.5))
+    if rnd.random() < 0.15:          # several trailing empty positions (a save + load drops all of them)
+        for _ in range(rnd.randrange(1, 4)):
+            p.attach_module(None)
     real = [m for m in p.modules if m is not None]
     for _ in range(rnd.randrange(0, 3 * len(real))):
         a, b = rnd.choice(real), rnd.choice(real)
